@@ -38,8 +38,9 @@ def confirm(wt, out, prop, sid, dest):
     meta = {"seed_id": sid, "property": prop, "base_commit": sh(f"git -C {wt} rev-parse HEAD").stdout.strip(), "ran": {}}
     env = dict(os.environ, PYTHONPATH=wt, PYTHONDONTWRITEBYTECODE="1", PYTHONWARNINGS="ignore")
     demo = f"{out}/demo.py"
-    shutil.copy(demo, f"{dest}/demo.py")
-    if os.path.exists(f"{out}/notes.md"):
+    if os.path.abspath(out) != os.path.abspath(dest):
+        shutil.copy(demo, f"{dest}/demo.py")
+    if os.path.abspath(out) != os.path.abspath(dest) and os.path.exists(f"{out}/notes.md"):
         shutil.copy(f"{out}/notes.md", f"{dest}/notes.md")
     # 1 baseline (retry once: fixed ports clash when several baselines run at the same time)
     for attempt in range(3):
